@@ -413,3 +413,22 @@ func prior(h uint64) d128.Decimal {
 	}
 	return D{splitmix(h + 1), splitmix(h + 2)}.Dec()
 }
+
+// exactInAllModes re-runs a call whose exact result is representable under the five non-default values of
+// DefaultRoundingMode: a result that needs no rounding cannot depend on the rounding mode ("exact whenever it
+// fits / is representable" carries no mode), so anything but the same value betrays a spurious sticky or
+// round digit that nearest-even happens to absorb.
+func exactInAllModes(what string, want d128.Decimal, call func() d128.Decimal) *Violation {
+	w := ref.Decode(want)
+	for _, m := range ref.Modes {
+		if m == d128.ToNearestEven {
+			continue
+		}
+		var got d128.Decimal
+		withDefaultMode(m, func() { got = call() })
+		if g := ref.Decode(got); !ref.SameVal(g, w) {
+			return violf("%s needs no rounding (%s under nearest-even) but under DefaultRoundingMode=%v the result is %s", what, w, m, g)
+		}
+	}
+	return nil
+}
